@@ -38,6 +38,9 @@ RulesOk ==
       /\ ~d.err =>
            /\ IsPartial(T, d.t, c.e, EnvDir(k)) # "no"
            /\ (SecondOrder => LET dd == D(T, d.t, Names[k]) IN ~dd.err /\ IsPartial(T, dd.t, d.t, EnvDir(k)) # "no")
+\* MissingOpMode only matters at binary operators without rule: on these trees (all binary operators have one) every mode is D
+ModesAgreeOnRuledOperators ==
+  ("e" \in DOMAIN c) => \A k \in 1..3 : \A mode \in {"error", "per_operand", "none"} : DM(T, c.e, Names[k], mode) = D(T, c.e, Names[k])
 \* statistics against vacuity: how many trees (<= 1 unary) are conclusive, and the judge tells right from wrong
 All1 == UNION {LeafU(u) : u \in 0..1}
         \cup UNION { UNION { UNION { UChain(Bin(OpBySem(T, s), l, r), 0) : l \in LeafU(ul), r \in LeafU(1 - ul) } : ul \in 0..1 } : s \in BinSems }
